@@ -632,6 +632,18 @@ def run(ctx: Ctx) -> int:
         k = rng.choice([1, 1, 2, 3])
         prep, body = sem_program(rng, k, det_w=8, body_len=rng.randint(2, 5))
         add_task("random", "ColorEncoder5", prep, body)
+    # the same (or the inverse) expanded gate twice on one logical qubit with a gate in between that does not commute with the Pauli
+    # correction of the expansion (S -> S,Z; SQRT_X -> SQRT_X,X ...): all in ONE encode_transversally call
+    pairs = [("S", "S"), ("S", "S_DAG"), ("SQRT_X", "SQRT_X"), ("SQRT_X", "SQRT_X_DAG")] if quick else \
+            [(a, b) for a in ("S", "S_DAG", "SQRT_X", "SQRT_X_DAG", "SQRT_Y", "SQRT_Y_DAG") for b in (a, a[:-4] if a.endswith("_DAG") else a + "_DAG")]
+    mids = ["H 0", "SQRT_Y 0", "CX 1 0\nCX 0 1"] if quick else ["H 0", "SQRT_Y 0", "SQRT_X 0", "S 0", "CX 1 0\nCX 0 1", "CZ 0 1\nH 0", "X 0\nH 0"]
+    for (g1, g2) in pairs:
+        for mid in mids:
+            two = "1" in mid
+            prep = "R 0 1\nU3(0.3125, 0.4375, 0.125) 0\nR_Y(0.375) 1\nT 1" if two else "R 0\nU3(0.3125, 0.4375, 0.125) 0"
+            tail = ("SQRT_X_DAG 0\nM 0 1\nOBSERVABLE_INCLUDE(0) rec[-2]\nOBSERVABLE_INCLUDE(1) rec[-1]" if two
+                    else "SQRT_X_DAG 0\nM 0\nDETECTOR rec[-1]\nOBSERVABLE_INCLUDE(0) rec[-1]")
+            add_task("expanded-pair", "SteaneEncoder", prep, f"{g1} 0\n{mid}\n{g2} 0\n{tail}")
     # sparse logical indices, two encode_transversally calls
     add_task("sparse", "SteaneEncoder", None, None,
              calls=[("i", "R 0 2\nU3(0.3125, 0.125, 0.4375) 0\nH 2\nT 2"), ("t", "CX 2 0\nS 0\nSQRT_Y 2"),
